@@ -12,6 +12,7 @@ mod kall;
 mod c02;
 mod c04;
 mod c05;
+mod c14;
 mod lall;
 mod cfggen;
 
@@ -39,6 +40,7 @@ fn main() {
                 "LALL" => lall::gen(tier, seed),
                 "KALL" => kall::gen(tier, seed),
                 "C02" => c02::gen(tier, seed),
+                "C14" => c14::gen(tier, seed),
                 "C05" => c05::gen(tier, seed),
                 _ => {
                     eprintln!("unknown property {prop}");
